@@ -557,9 +557,9 @@ theorem invOrd_step (cfg : Cfg) (s : State) (e : Event) (s' : State) (hI : InvOr
     obtain ⟨-, -, hPtp, -⟩ := hg
     cases hs
     by_cases happ : out.applied = true
-    · exact invOrd_produce hI hP hB hsend hPtp rfl rfl (by simp [produced, happ]) rfl rfl
+    · exact invOrd_produce hI hP hB hsend hPtp rfl rfl (by rw [produced_log]; simp [happ]) rfl rfl
     · have hb := shrink_bat (B' := B.noteProduce out) hB rfl rfl rfl
-      exact hI.of_shrink rfl rfl (by simp [produced, happ])
+      exact hI.of_shrink rfl rfl (by rw [produced_log]; simp [happ])
         (shrink_pws hP rfl rfl (by simp [PW.pipe, hsend, Sender.batch?])) hb.1 hb.2
   | _ =>
     simp only [step, stepReject, stepRet] at hs
